@@ -5,12 +5,14 @@ import (
 	"math"
 	"math/big"
 	"strconv"
+	"sync"
 	"unsafe"
 
 	"github.com/go-faster/jx"
 	"github.com/ogen-go/ogen/conv"
 	ojson "github.com/ogen-go/ogen/json"
 
+	"verifharness/internal/ev"
 )
 
 // ---------------------------------------------------------------- adaptors
@@ -318,22 +320,39 @@ func floatSpec[T float32 | float64](c *ctx, pkg, encName, decName string, encF f
 	}
 	half10 := new(big.Rat).SetFrac(big.NewInt(1), new(big.Int).Mul(big.NewInt(2), new(big.Int).Exp(big.NewInt(10), big.NewInt(10), nil)))
 	rel10 := new(big.Rat).SetFrac(big.NewInt(5), new(big.Int).Exp(big.NewInt(10), big.NewInt(10), nil))
-	classify := func(v T, in string) string {
-		q, ok := new(big.Rat).SetString(in)
-		if !ok {
-			return ""
-		}
-		vr := new(big.Rat).SetFloat64(float64(v))
-		diff := new(big.Rat).Sub(q, vr)
-		diff.Abs(diff)
-		if fixedDecimals(in) == 10 && diff.Cmp(half10) <= 0 {
-			return "precision-10-decimals"
-		}
-		bound := new(big.Rat).Mul(rel10, new(big.Rat).Abs(vr))
-		if sigDigits(in) <= 10 && diff.Cmp(bound) <= 0 {
-			return "precision-10-significant-digits"
-		}
-		return ""
+	// Classification of an encoder-side loss. Whether the text of the failing
+	// value happens to have 10 decimals or 10 significant digits is ambiguous for
+	// values in [0.1, 1), so the kind of truncation is read off a fixed probe value
+	// (tiny, 17 significant digits) that tells the two apart.
+	var probeOnce sync.Once
+	probeClass := "precision-loss"
+	classify := func() string {
+		probeOnce.Do(func() {
+			probe := T(1.2345678901234567e-15)
+			var t string
+			if p, _ := ev.Guard(func() { t = encF(probe) }); p {
+				return
+			}
+			in, bad := unwrap(mode, t)
+			if bad != nil {
+				return
+			}
+			q, ok := new(big.Rat).SetString(in)
+			if !ok {
+				return
+			}
+			vr := new(big.Rat).SetFloat64(float64(probe))
+			diff := new(big.Rat).Sub(q, vr)
+			diff.Abs(diff)
+			bound := new(big.Rat).Mul(rel10, new(big.Rat).Abs(vr))
+			switch {
+			case fixedDecimals(in) == 10 && diff.Cmp(half10) <= 0:
+				probeClass = "precision-10-decimals"
+			case sigDigits(in) <= 10 && diff.Cmp(bound) <= 0:
+				probeClass = "precision-10-significant-digits"
+			}
+		})
+		return probeClass
 	}
 	s.oracle = func(v T, text string, got T, err error) (fs []finding, und string) {
 		f64 := float64(v)
@@ -346,11 +365,27 @@ func floatSpec[T float32 | float64](c *ctx, pkg, encName, decName string, encF f
 		} else if !jsonNumber(in) {
 			fs = append(fs, finding{rule: "syntax", got: fmt.Sprintf("%q", in), want: syn})
 		}
+		// lossy: under correct rounding the text does not denote v (encoder-side loss)
+		lossy := func() bool {
+			if bad != nil {
+				return false
+			}
+			pf, perr := strconv.ParseFloat(in, bits)
+			return perr != nil || T(pf) != v
+		}
 		switch {
 		case err != nil:
-			fs = append(fs, finding{rule: "roundtrip", class: "decode-error", got: "error: " + err.Error(), want: show(v)})
+			class := "decode-error"
+			if lossy() {
+				class = classify()
+			}
+			fs = append(fs, finding{rule: "roundtrip", class: class, got: "error: " + err.Error(), want: show(v)})
 		case got != v:
-			fs = append(fs, finding{rule: "roundtrip", class: classify(v, in), got: show(got), want: show(v)})
+			class := ""
+			if lossy() {
+				class = classify()
+			}
+			fs = append(fs, finding{rule: "roundtrip", class: class, got: show(got), want: show(v)})
 		case v == 0 && math.Signbit(f64) != math.Signbit(float64(got)):
 			r.Count("negative-zero-sign-lost/"+name, 1)
 		}
@@ -410,7 +445,7 @@ func floatSpec[T float32 | float64](c *ctx, pkg, encName, decName string, encF f
 		}
 	}
 	key := r.Rand(name, "perm").Uint64()
-	total := r.N(100000, 4000000)
+	total := r.N(300000, 4000000)
 	s.nShards = bulkShards
 	s.bulk = func(c *ctx, shard int, emit func(T)) {
 		lo, hi := shardRange(total, shard, bulkShards)
@@ -441,8 +476,8 @@ func boolSpec(c *ctx) *spec[bool] {
 	s := &spec[bool]{
 		pairMeta: pairMeta{Name: "conv.BoolToString", Enc: "BoolToString", Dec: "ToBool", GoType: "bool", Syntax: `"true" or "false"`},
 		enc:      conv.BoolToString, dec: conv.ToBool,
-		show:     strconv.FormatBool, bits: strconv.FormatBool,
-		unbits:   func(b string) (bool, error) { return b == "true", nil },
+		show: strconv.FormatBool, bits: strconv.FormatBool,
+		unbits: func(b string) (bool, error) { return b == "true", nil },
 		quick: func(v bool) uint64 {
 			if v {
 				return 1
